@@ -648,6 +648,14 @@ impl BytecodeInterpreter {
             }
         }
 
+        if self.vm.take_offset_overflow() {
+            // a jump offset of a conditional did not fit into its 16 bit operand
+            return Err(Box::new(RuntimeError {
+                kind: RuntimeErrorKind::CodeTooLarge,
+                backtrace: vec![],
+            }));
+        }
+
         Ok(())
     }
 
